@@ -34,9 +34,25 @@ def main():
     results = []
     for fn in fns:
         within = None
-        if ":" in fn:
+        if "@@" in fn:
+            within, fn = fn.split("@@", 1)
+        elif ":" in fn and "<" not in fn:
             within, fn = fn.split(":", 1)
-        loc = X.find_fn(orig, fn, within)
+        masked = X.mask(orig)
+        lo, hi = (0, len(orig)) if not within else X.find_scope(orig, masked, within)
+        ms = [m for m in re.finditer(r"\bfn\s+%s\b" % re.escape(fn), masked) if lo <= m.start() < hi and not X._in_test_mod(masked, m.start())]
+        assert len(ms) == 1, (fn, len(ms))
+        po = masked.index("(", ms[0].end())
+        depth = 0
+        k = po
+        while True:
+            if masked[k] == "(": depth += 1
+            elif masked[k] == ")":
+                depth -= 1
+                if depth == 0: break
+            k += 1
+        bo = masked.index("{", k)
+        loc = {"body_open": bo, "body_close": X.match_brace(masked, bo)}
         body = orig[loc["body_open"]:loc["body_close"] + 1]
         for (a, b, rep) in mutants(body, maxn):
             new = orig[:loc["body_open"] + a] + rep + orig[loc["body_open"] + b:]
